@@ -37,7 +37,7 @@ fn o3_queue(acc: &mut Acc, bytes: &[u8], a: &Analysis, flagged: bool, every: u64
     if bytes.len() > 200_000 {
         return;
     }
-    if flagged || acc.evaluations % every == 0 {
+    if flagged || (acc.evaluations % every == 0 && acc.o3.len() < acc.o3_cap) {
         acc.o3.push((bytes.to_vec(), a.dis_accepts(), a.ins.len() as u32));
     }
 }
@@ -98,11 +98,11 @@ pub fn check_c01(cfg: &Config, res: &CaseResult, acc: &mut Acc) {
     }
     // coverage accounting
     let h = hash128(bytes);
-    acc.distinct.insert(h);
+    acc.ins_distinct(h);
     let markops = a.ins.iter().filter(|i| i.op.before.contains(&"mark")).count();
     let pops = a.ins.iter().filter(|i| !i.op.before.is_empty()).count();
     if markops > 0 || pops > 2 {
-        acc.nontrivial.insert(h);
+        acc.ins_nontrivial(h);
     }
     acc.count("opcodes_executed_by_reference_machine", a.ins.len() as u64);
     acc.count("mark_consuming_opcodes", markops as u64);
@@ -167,9 +167,9 @@ pub fn check_c02(cfg: &Config, res: &CaseResult, acc: &mut Acc) {
         });
     }
     let h = hash128(bytes);
-    acc.distinct.insert(h);
+    acc.ins_distinct(h);
     if a.gets > 0 && a.puts > 0 {
-        acc.nontrivial.insert(h);
+        acc.ins_nontrivial(h);
     }
     acc.count("GET_family_executed", a.gets as u64);
     acc.count("PUT_family_executed", a.puts as u64);
@@ -261,10 +261,10 @@ pub fn check_c04(cfg: &Config, res: &CaseResult, acc: &mut Acc) {
         });
     }
     let h = hash128(bytes);
-    acc.distinct.insert(h);
+    acc.ins_distinct(h);
     let with_args = a.ins.iter().filter(|i| !i.op.arg.is_empty()).count();
     if with_args >= 3 {
-        acc.nontrivial.insert(h);
+        acc.ins_nontrivial(h);
     }
     acc.count("opcodes_decoded", a.ins.len() as u64);
     acc.count("arguments_decoded", with_args as u64);
@@ -368,9 +368,9 @@ pub fn check_c05(cfg: &Config, res: &CaseResult, acc: &mut Acc) {
         });
     }
     let h = hash128(bytes);
-    acc.distinct.insert(h);
+    acc.ins_distinct(h);
     if a.ins.len() >= 4 {
-        acc.nontrivial.insert(h);
+        acc.ins_nontrivial(h);
     }
     acc.count(&format!("pickles_P{}", p), 1);
     acc.count("opcode_occurrences_checked", a.ins.len() as u64);
@@ -429,9 +429,9 @@ pub fn check_c06(cfg: &Config, res: &CaseResult, acc: &mut Acc) {
         });
     }
     let h = hash128(bytes);
-    acc.distinct.insert(h);
+    acc.ins_distinct(h);
     if !frames.is_empty() {
-        acc.nontrivial.insert(h);
+        acc.ins_nontrivial(h);
         acc.count("framed_pickles", 1);
         if cfg.unsafe_mut && cfg.mutators.contains(&Mk::Typeconfusion) && cfg.rate > 0.0 {
             acc.count("framed_pickles_under_unsafe_typeconfusion", 1);
@@ -498,11 +498,11 @@ pub fn check_c10(cfg: &Config, res: &CaseResult, acc: &mut Acc) {
         });
     }
     let h = hash128(bytes);
-    acc.distinct.insert(h);
+    acc.ins_distinct(h);
     let combo = format!("flags_ext{}_buf{}", cfg.ext as u8, cfg.buf as u8);
     acc.count(&format!("cases_{}", combo), 1);
     if a.ins.len() >= 8 {
-        acc.nontrivial.insert(h);
+        acc.ins_nontrivial(h);
     }
     if cfg.ext && ext > 0 {
         acc.count("positive_control_ext_on_and_EXT_seen", 1);
